@@ -127,4 +127,647 @@ theorem unmarshalDec_eq (fuel : Nat) (hf : 256 < fuel) (d : List UInt8) (p : Nat
       simp only [hz, hr', bind_ok, pure_eq_ok, ofKvs_eq]
       rfl
 
+/-! ### the empty prefix table -/
+
+def maxU : UInt64 := 18446744073709551615
+
+theorem newLayout_loop (fuel0 : Nat) : ∀ (c fuel k : Nat), k + c = 65536 → c < fuel →
+    bkNewLayout.loop1 fuel0 fuel (k : Int) (List.replicate k maxU ++ List.replicate c 0)
+      = .ok (LoopRes.done ((65536 : Int), List.replicate 65536 maxU)) := by
+  intro c
+  induction c with
+  | zero =>
+    intro fuel k hk hf
+    obtain ⟨f, rfl⟩ : ∃ f, fuel = f + 1 := ⟨fuel - 1, by omega⟩
+    rw [bkNewLayout.loop1]
+    have hk' : k = 65536 := by omega
+    subst hk'
+    have : ¬ (((65536 : Nat) : Int) ≤ 65535) := by omega
+    simp only [this, decide_false, Bool.not_false, if_true, List.replicate_zero, List.append_nil]
+    rfl
+  | succ c ih =>
+    intro fuel k hk hf
+    obtain ⟨f, rfl⟩ : ∃ f, fuel = f + 1 := ⟨fuel - 1, by omega⟩
+    rw [bkNewLayout.loop1]
+    have hle : ((k : Int) ≤ 65535) := by omega
+    simp only [hle, decide_true, Bool.not_true, Bool.false_eq_true, if_false]
+    have hset : Go.setIdx (List.replicate k maxU ++ List.replicate (c + 1) 0) (k : Int) (18446744073709551615 : UInt64)
+        = .ok (List.replicate (k + 1) maxU ++ List.replicate c 0) := by
+      unfold Go.setIdx
+      rw [if_pos (by simp; omega)]
+      simp only [Int.toNat_natCast, pure_eq_ok]
+      congr 1
+      rw [List.set_append_right _ _ (by simp)]
+      simp only [List.length_replicate, Nat.sub_self, List.replicate_succ, List.set_cons_zero]
+      rw [← List.replicate_succ, List.replicate_succ', List.append_assoc]
+      rfl
+    rw [hset, bind_ok]
+    have hw : Go.wrap64 ((k : Int) + 1) = ((k + 1 : Nat) : Int) := by
+      rw [Go.wrap64_id] <;> omega
+    rw [hw]
+    exact ih f (k + 1) (by omega) (by omega)
+
+/-- `newUint16Layout()`: 65 536 entries `math.MaxUint64` -/
+theorem newLayout_eq (fuel : Nat) (hf : 65536 < fuel) : bkNewLayout fuel = .ok (List.replicate 65536 maxU) := by
+  have hm : bkNewLayout fuel = (bkNewLayout.loop1 fuel fuel 0 (List.replicate 65536 0) >>= fun r =>
+      match r with
+      | LoopRes.ret r2 => pure r2
+      | LoopRes.done (_, s4) => pure s4) := rfl
+  have := newLayout_loop fuel 65536 fuel 0 (by omega) hf
+  simp only [List.replicate_zero, List.nil_append, Int.natCast_zero] at this
+  rw [hm, this]
+  rfl
+
+theorem newLayoutPtr_loop (fuel0 : Nat) : ∀ (c fuel k : Nat), k + c = 65536 → c < fuel →
+    bkNewLayoutPtr.loop1 fuel0 fuel (k : Int) (List.replicate k maxU ++ List.replicate c 0)
+      = .ok (LoopRes.done ((65536 : Int), List.replicate 65536 maxU)) := by
+  intro c
+  induction c with
+  | zero =>
+    intro fuel k hk hf
+    obtain ⟨f, rfl⟩ : ∃ f, fuel = f + 1 := ⟨fuel - 1, by omega⟩
+    rw [bkNewLayoutPtr.loop1]
+    have hk' : k = 65536 := by omega
+    subst hk'
+    have : ¬ (((65536 : Nat) : Int) ≤ 65535) := by omega
+    simp only [this, decide_false, Bool.not_false, if_true, List.replicate_zero, List.append_nil]
+    rfl
+  | succ c ih =>
+    intro fuel k hk hf
+    obtain ⟨f, rfl⟩ : ∃ f, fuel = f + 1 := ⟨fuel - 1, by omega⟩
+    rw [bkNewLayoutPtr.loop1]
+    have hle : ((k : Int) ≤ 65535) := by omega
+    simp only [hle, decide_true, Bool.not_true, Bool.false_eq_true, if_false]
+    have hset : Go.setIdx (List.replicate k maxU ++ List.replicate (c + 1) 0) (k : Int) (18446744073709551615 : UInt64)
+        = .ok (List.replicate (k + 1) maxU ++ List.replicate c 0) := by
+      unfold Go.setIdx
+      rw [if_pos (by simp; omega)]
+      simp only [Int.toNat_natCast, pure_eq_ok]
+      congr 1
+      rw [List.set_append_right _ _ (by simp)]
+      simp only [List.length_replicate, Nat.sub_self, List.replicate_succ, List.set_cons_zero]
+      rw [← List.replicate_succ, List.replicate_succ', List.append_assoc]
+      rfl
+    rw [hset, bind_ok]
+    have hw : Go.wrap64 ((k : Int) + 1) = ((k + 1 : Nat) : Int) := by
+      rw [Go.wrap64_id] <;> omega
+    rw [hw]
+    exact ih f (k + 1) (by omega) (by omega)
+
+theorem newLayoutPtr_eq (fuel : Nat) (hf : 65536 < fuel) : bkNewLayoutPtr fuel = .ok (List.replicate 65536 maxU) := by
+  have hm : bkNewLayoutPtr fuel = (bkNewLayoutPtr.loop1 fuel fuel 0 (List.replicate 65536 0) >>= fun r =>
+      match r with
+      | LoopRes.ret r2 => pure r2
+      | LoopRes.done (_, s4) => pure s4) := rfl
+  have := newLayoutPtr_loop fuel 65536 fuel 0 (by omega) hf
+  simp only [List.replicate_zero, List.nil_append, Int.natCast_zero] at this
+  rw [hm, this]
+  rfl
+
+/-! ### the prefix → offset table -/
+
+/-- one step of the model's `parseTable` on an arbitrary byte string -/
+theorem parseTable_succ (n : Nat) (bs : List UInt8) (t : Array (Option Nat)) :
+    BK.parseTable (n + 1) bs t =
+      if bs.length < 10 then none
+      else BK.parseTable n (bs.drop 10)
+        (t.setIfInBounds ((bs.getD 0 0).toNat + 256 * (bs.getD 1 0).toNat) (some (B.unle ((bs.drop 2).take 8)))) := by
+  match bs with
+  | [] => rfl
+  | [_] => rfl
+  | [_, _] => rfl
+  | [_, _, _] => rfl
+  | [_, _, _, _] => rfl
+  | [_, _, _, _, _] => rfl
+  | [_, _, _, _, _, _] => rfl
+  | [_, _, _, _, _, _, _] => rfl
+  | [_, _, _, _, _, _, _, _] => rfl
+  | [_, _, _, _, _, _, _, _, _] => rfl
+  | b0 :: b1 :: o0 :: o1 :: o2 :: o3 :: o4 :: o5 :: o6 :: o7 :: rest =>
+    have : ¬ ((b0 :: b1 :: o0 :: o1 :: o2 :: o3 :: o4 :: o5 :: o6 :: o7 :: rest).length < 10) := by
+      simp only [List.length_cons]; omega
+    rw [if_neg this]
+    rfl
+
+theorem tableRep_set (t : Array (Option Nat)) (T : List UInt64) (k v : Nat) (hT : TableRep t T) (hs : t.size = 65536)
+    (hk : k < 65536) (hv : v < 2 ^ 64) :
+    TableRep (t.setIfInBounds k (some v)) (T.set k (UInt64.ofNat v)) ∧ (t.setIfInBounds k (some v)).size = 65536 := by
+  obtain ⟨hl, hrep⟩ := hT
+  refine ⟨⟨by rw [List.length_set]; exact hl, ?_⟩, by simp [hs]⟩
+  intro q hq
+  by_cases hqk : q = k
+  · subst hqk
+    have h1 : (t.setIfInBounds q (some v)).getD q none = some v := by
+      rw [Array.getD_eq_getD_getElem?, Array.getElem?_setIfInBounds_self_of_lt (by omega)]; rfl
+    have h2 : (T.set q (UInt64.ofNat v)).getD q 0 = UInt64.ofNat v := by
+      rw [List.getD_eq_getElem?_getD, List.getElem?_set_self (by omega)]; rfl
+    rw [h1]
+    exact ⟨hv, h2⟩
+  · have h1 : (t.setIfInBounds k (some v)).getD q none = t.getD q none := by
+      rw [Array.getD_eq_getD_getElem?, Array.getD_eq_getD_getElem?, Array.getElem?_setIfInBounds_ne (by omega)]
+    have h2 : (T.set k (UInt64.ofNat v)).getD q 0 = T.getD q 0 := by
+      rw [List.getD_eq_getElem?_getD, List.getD_eq_getElem?_getD, List.getElem?_set_ne (by omega)]
+    rw [h1, h2]
+    exact hrep q hq
+
+/-- the error result every failing branch of `readHeader` returns -/
+def hdrErr (e : Go.Error) : (List UInt64 × Indexmeta_Meta × Int × Go.Error) :=
+  (List.replicate 65536 (0 : UInt64), Indexmeta_Meta.zero, (0 : Int), e)
+
+/-- one iteration of the table loop of `readHeader` (tied to the translation by `rfl`) -/
+theorem tloop_succ (fuel0 : Nat) (np : UInt64) (f : Nat) (dec : Go.BytesReader) (i : UInt64) (T : List UInt64) :
+    bkReadHeader.loop1 fuel0 np (f + 1) dec i T =
+      (if (!(decide (i < np))) = true then pure (LoopRes.done (dec, i, T)) else
+       Go.catchErr (Go.readFull dec (Go.len (List.replicate 2 (0 : UInt8)))) (dec, List.replicate 2 (0 : UInt8)) >>= fun t10 =>
+       if (t10.2 != Go.Error.nil) = true then
+         pure (LoopRes.ret (hdrErr (Go.Error.wrap "failed to read prefixes[%d]: %w" t10.2))) else
+       Go.catchErr (Go.readU64LE t10.1.1) (t10.1.1, (0 : UInt64)) >>= fun t11 =>
+       if (t11.2 != Go.Error.nil) = true then
+         pure (LoopRes.ret (hdrErr (Go.Error.wrap "failed to read offsets[%d]: %w" t11.2))) else
+       bkPrefixToUint16 t10.1.2 >>= fun t13 =>
+       Go.setIdx T (t13.toNat : Int) t11.1.2 >>= fun t12 =>
+       bkReadHeader.loop1 fuel0 np f t11.1.1 (i + 1) t12) := rfl
+
+theorem catch_ok {α : Type} (v d : α) : Go.catchErr (Except.ok v : M α) d = .ok (v, Go.Error.nil) := rfl
+theorem catch_err {α : Type} (t : String) (d : α) : Go.catchErr (Except.error (.err t) : M α) d = .ok (d, Go.Error.other t) := rfl
+
+theorem readU64_eq (d : List UInt8) (p : Nat) :
+    Go.readU64LE ⟨d, p⟩ = if (d.drop p).length < 8 then Go.readU64LE ⟨d, p⟩
+      else .ok (⟨d, p + 8⟩, UInt64.ofNat (B.unle ((d.drop p).take 8))) := by
+  by_cases h : (d.drop p).length < 8
+  · rw [if_pos h]
+  · rw [if_neg h]
+    unfold Go.readU64LE
+    have h8 : Go.readFull ⟨d, p⟩ 8 = .ok (⟨d, p + 8⟩, (d.drop p).take 8) := readFull_ok d p 8 h
+    rw [h8, bind_ok, leDecode_eq_unle]
+    rfl
+
+theorem readU64_short (d : List UInt8) (p : Nat) (h : (d.drop p).length < 8) : ∃ t, Go.readU64LE ⟨d, p⟩ = .error (.err t) := by
+  unfold Go.readU64LE
+  obtain ⟨t, ht⟩ := readFull_gen d p 8 h
+  have ht' : Go.readFull ⟨d, p⟩ 8 = .error (.err t) := ht
+  rw [ht']
+  exact ⟨t, rfl⟩
+
+/-- the table loop of `readHeader` from position `p` with `c` pairs still to read = the model's `parseTable` -/
+theorem table_loop (fuel0 : Nat) (np : UInt64) (d : List UInt8) : ∀ (c fuel i p : Nat) (t : Array (Option Nat)) (T : List UInt64),
+    i + c = np.toNat → (d.length - p) / 10 + 1 < fuel → TableRep t T → t.size = 65536 →
+    match BK.parseTable c (d.drop p) t with
+    | some t' => ∃ p' T', TableRep t' T' ∧
+        bkReadHeader.loop1 fuel0 np fuel ⟨d, p⟩ (UInt64.ofNat i) T = .ok (LoopRes.done (⟨d, p'⟩, np, T'))
+    | none => ∃ e, e ≠ Go.Error.nil ∧
+        bkReadHeader.loop1 fuel0 np fuel ⟨d, p⟩ (UInt64.ofNat i) T = .ok (LoopRes.ret (hdrErr e)) := by
+  intro c
+  induction c with
+  | zero =>
+    intro fuel i p t T hi hf hT hs
+    obtain ⟨f, rfl⟩ : ∃ f, fuel = f + 1 := ⟨fuel - 1, by omega⟩
+    rw [tloop_succ]
+    have hnp := np.toNat_lt
+    have hie : UInt64.ofNat i = np := by
+      apply UInt64.toNat_inj.mp
+      rw [UInt64.toNat_ofNat', Nat.mod_eq_of_lt (by omega)]; omega
+    have : (!(decide (UInt64.ofNat i < np))) = true := by
+      rw [hie]; simp
+    rw [if_pos this, hie]
+    exact ⟨p, T, hT, rfl⟩
+  | succ c ih =>
+    intro fuel i p t T hi hf hT hs
+    obtain ⟨f, rfl⟩ : ∃ f, fuel = f + 1 := ⟨fuel - 1, by omega⟩
+    rw [tloop_succ, parseTable_succ]
+    have hnp := np.toNat_lt
+    have hin : (UInt64.ofNat i).toNat = i := by rw [UInt64.toNat_ofNat', Nat.mod_eq_of_lt (by omega)]
+    have hlt : ¬ ((!(decide (UInt64.ofNat i < np))) = true) := by
+      simp only [Bool.not_eq_true', decide_eq_false_iff_not, Decidable.not_not, UInt64.lt_iff_toNat_lt, hin]; omega
+    have hi1 : UInt64.ofNat i + 1 = UInt64.ofNat (i + 1) := by
+      apply UInt64.toNat_inj.mp
+      have e1 : (1 : UInt64).toNat = 1 := rfl
+      have hlt2 : i + 1 < 2 ^ 64 := by omega
+      rw [UInt64.toNat_add, hin, e1, UInt64.toNat_ofNat', Nat.mod_eq_of_lt hlt2]
+    rw [if_neg hlt]
+    have hl2 : Go.len (List.replicate 2 (0 : UInt8)) = ((2 : Nat) : Int) := by unfold Go.len; simp
+    rw [hl2]
+    by_cases h2 : (d.drop p).length < 2
+    · -- not even the prefix
+      obtain ⟨tt, ht⟩ := readFull_gen d p 2 h2
+      rw [ht, catch_err, bind_ok]
+      have : ((Go.Error.other tt != Go.Error.nil) = true) := by simp
+      rw [if_pos this, if_pos (by omega)]
+      exact ⟨_, (by intro h; cases h), rfl⟩
+    · rw [readFull_ok d p 2 h2, catch_ok, bind_ok]
+      have hnil : ¬ ((Go.Error.nil != Go.Error.nil) = true) := by simp
+      rw [if_neg hnil]
+      by_cases h8 : (d.drop (p + 2)).length < 8
+      · obtain ⟨tt, ht⟩ := readU64_short d (p + 2) h8
+        rw [ht, catch_err, bind_ok]
+        have : ((Go.Error.other tt != Go.Error.nil) = true) := by simp
+        have hshort : (d.drop p).length < 10 := by
+          rw [List.length_drop] at h8 h2 ⊢; omega
+        rw [if_pos this, if_pos hshort]
+        exact ⟨_, (by intro h; cases h), rfl⟩
+      · rw [readU64_eq, if_neg h8, catch_ok, bind_ok, if_neg hnil]
+        have hlong : ¬ ((d.drop p).length < 10) := by
+          rw [List.length_drop] at h8 h2 ⊢; omega
+        rw [if_neg hlong]
+        -- the two prefix bytes
+        obtain ⟨b0, b1, rest, hd⟩ : ∃ b0 b1 rest, d.drop p = b0 :: b1 :: rest := by
+          match hdp : d.drop p with
+          | [] => rw [hdp] at h2; simp at h2
+          | [_] => rw [hdp] at h2; simp at h2
+          | b0 :: b1 :: rest => exact ⟨b0, b1, rest, rfl⟩
+        have ht2 : (d.drop p).take 2 = [b0, b1] := by rw [hd]; rfl
+        rw [ht2, C05.gen_bkPrefixToUint16_eq_model, bind_ok]
+        have hpk : BK.prefixOf [b0, b1] < 65536 := by
+          unfold BK.prefixOf; have := b0.toNat_lt; have := b1.toNat_lt; simp; omega
+        have hpn : (UInt16.ofNat (BK.prefixOf [b0, b1])).toNat = BK.prefixOf [b0, b1] := by
+          rw [UInt16.toNat_ofNat']; exact Nat.mod_eq_of_lt hpk
+        have hkey : ((d.drop p).getD 0 0).toNat + 256 * ((d.drop p).getD 1 0).toNat = BK.prefixOf [b0, b1] := by
+          rw [hd]; rfl
+        have hval : B.unle (((d.drop p).drop 2).take 8) = B.unle ((d.drop (p + 2)).take 8) := by
+          rw [List.drop_drop]
+        rw [hkey, hval, hpn]
+        have hv64 := unle8_lt (d.drop (p + 2))
+        generalize B.unle ((d.drop (p + 2)).take 8) = v at hv64 ⊢
+        generalize BK.prefixOf [b0, b1] = k at hpk ⊢
+        obtain ⟨hT', hs'⟩ := tableRep_set t T k v hT hs hpk hv64
+        have hset : Go.setIdx T (k : Int) (UInt64.ofNat v) = .ok (T.set k (UInt64.ofNat v)) := by
+          unfold Go.setIdx
+          rw [if_pos (by rw [hT.1]; omega), Int.toNat_natCast]; rfl
+        rw [hset, bind_ok]
+        rw [hi1]
+        have hdd : (d.drop p).drop 10 = d.drop (p + 2 + 8) := by rw [List.drop_drop]
+        rw [hdd]
+        have hfuel : (d.length - (p + 2 + 8)) / 10 + 1 < f := by
+          rw [List.length_drop] at hlong
+          have : (d.length - p) / 10 = (d.length - (p + 2 + 8)) / 10 + 1 := by omega
+          omega
+        exact ih f (i + 1) (p + 2 + 8) _ _ (by omega) hfuel hT' hs'
+
+/-! ### `readHeader` -/
+
+def magicL : List UInt8 := [98, 117, 99, 107, 101, 116, 116, 101]
+
+def readHeaderM (fuel : Nat) (s : Go.ReaderAt) : M (List UInt64 × Indexmeta_Meta × Int × Go.Error) :=
+  bkReadHeaderSize s >>= fun t1 =>
+  if (t1.2 != Go.Error.nil) = true then pure (hdrErr (Go.Error.wrap "failed to read header size: %w" t1.2)) else
+  if decide (t1.1 > 785945) = true then pure (hdrErr (Go.Error.other "invalid header size: %d")) else
+  Go.makeOf (0 : UInt8) t1.1 >>= fun t2 =>
+  let t3 := s (Go.len t2) 4
+  if (t3.2 != Go.Error.nil) = true then pure (hdrErr (Go.Error.wrap "failed to read header bytes: %w" t3.2)) else
+  Go.makeOf (0 : UInt8) (Go.len magicL) >>= fun t4 =>
+  Go.catchErr (Go.readFull ⟨t3.1 ++ t2.drop t3.1.length, 0⟩ (Go.len t4)) (⟨t3.1 ++ t2.drop t3.1.length, 0⟩, t4) >>= fun t5 =>
+  if (t5.2 != Go.Error.nil) = true then pure (hdrErr (Go.Error.wrap "failed to read magic: %w" t5.2)) else
+  if (!(t5.1.2 == magicL)) = true then pure (hdrErr (Go.Error.other "invalid magic: %x")) else
+  Go.catchErr (Go.readU64LE t5.1.1) (t5.1.1, (0 : UInt64)) >>= fun t6 =>
+  if (t6.2 != Go.Error.nil) = true then pure (hdrErr (Go.Error.wrap "failed to read version: %w" t6.2)) else
+  if (t6.1.2 != 2) = true then pure (hdrErr (Go.Error.other "expected version %d, got %d")) else
+  Go.catchErr (metaUnmarshalDec fuel Indexmeta_Meta.zero t6.1.1) (Indexmeta_Meta.zero, t6.1.1) >>= fun t7 =>
+  if (t7.2 != Go.Error.nil) = true then pure (hdrErr (Go.Error.wrap "failed to unmarshal metadata: %w" t7.2)) else
+  Go.catchErr (Go.readU64LE t7.1.2) (t7.1.2, (0 : UInt64)) >>= fun t8 =>
+  if (t8.2 != Go.Error.nil) = true then pure (hdrErr (Go.Error.wrap "failed to read numPrefixes: %w" t8.2)) else
+  bkNewLayout fuel >>= fun t9 =>
+  bkReadHeader.loop1 fuel t8.1.2 fuel t8.1.1 0 t9 >>= fun r =>
+  match r with
+  | LoopRes.ret r14 => pure r14
+  | LoopRes.done (_, _, s17) => pure (s17, t7.1.1, Go.wrap64 (t1.1 + 4), t8.2)
+
+theorem readHeader_unfold (fuel : Nat) (s : Go.ReaderAt) : bkReadHeader fuel s = readHeaderM fuel s := rfl
+
+theorem memRd_at0_ok (c : List UInt8) (n : Nat) (h : n ≤ c.length) (hn : 0 < n) :
+    memRd c (n : Int) 0 = (c.take n, Go.Error.nil) := by
+  have := memRd_ok c n 0 (by omega) hn
+  simp only [Int.natCast_zero, List.drop_zero] at this
+  exact this
+
+theorem memRd_at0_short (c : List UInt8) (n : Nat) (h : ¬ (n ≤ c.length)) (hn : 0 < n) :
+    (memRd c (n : Int) 0).2 = Go.Error.eof := by
+  have := (memRd_short c n 0 (by omega) hn).1
+  simp only [Int.natCast_zero] at this
+  exact this
+
+theorem memRd_at4_ok (c : List UInt8) (n : Nat) (h : 4 + n ≤ c.length) (hn : 0 < n) :
+    memRd c (n : Int) 4 = ((c.drop 4).take n, Go.Error.nil) := memRd_ok c n 4 h hn
+
+theorem memRd_at4_short (c : List UInt8) (n : Nat) (h : ¬ (4 + n ≤ c.length)) (hn : 0 < n) :
+    (memRd c (n : Int) 4).2 = Go.Error.eof := (memRd_short c n 4 h hn).1
+
+/-- `readHeaderSize` over an in-memory reader -/
+theorem readHeaderSize_eq (l : List UInt8) :
+    bkReadHeaderSize (memRd l) =
+      if 4 ≤ l.length then .ok (((B.unle (l.take 4) : Nat) : Int), Go.Error.nil) else .ok (0, Go.Error.eof) := by
+  have hm : bkReadHeaderSize (memRd l) =
+      (Go.makeOf (0 : UInt8) 4 >>= fun t1 =>
+       let t2 := memRd l (Go.len t1) 0
+       if (t2.2 != Go.Error.nil) = true then pure ((0 : Int), t2.2)
+       else Go.leU32 (t2.1 ++ t1.drop t2.1.length) >>= fun t3 => pure ((t3.toNat : Int), Go.Error.nil)) := rfl
+  rw [hm]
+  have hmk : Go.makeOf (0 : UInt8) (4 : Int) = .ok (List.replicate 4 0) := by
+    unfold Go.makeOf; rw [if_pos (by omega)]; rfl
+  rw [hmk, bind_ok]
+  have hl4 : Go.len (List.replicate 4 (0 : UInt8)) = ((4 : Nat) : Int) := by unfold Go.len; simp
+  simp only [hl4]
+  by_cases h : 4 ≤ l.length
+  · rw [if_pos h, memRd_at0_ok l 4 h (by omega)]
+    have hnil : ¬ ((Go.Error.nil != Go.Error.nil) = true) := by simp
+    simp only [hnil, if_false]
+    have hlen : (l.take 4).length = 4 := by rw [List.length_take]; omega
+    have hle : Go.leU32 (l.take 4 ++ (List.replicate 4 (0 : UInt8)).drop (l.take 4).length) = .ok (UInt32.ofNat (B.unle (l.take 4))) := by
+      rw [hlen]
+      unfold Go.leU32
+      simp only [List.drop_replicate, Nat.sub_self, List.replicate_zero, List.append_nil]
+      rw [if_pos (by omega), leDecode_eq_unle, List.take_take]; rfl
+    rw [hle, bind_ok]
+    have h32 : B.unle (l.take 4) < 2 ^ 32 := BkHas.unle4_lt l
+    have : (UInt32.ofNat (B.unle (l.take 4))).toNat = B.unle (l.take 4) := by
+      rw [UInt32.toNat_ofNat']; exact Nat.mod_eq_of_lt h32
+    rw [this]
+    rfl
+  · rw [if_neg h]
+    have he := memRd_at0_short l 4 h (by omega)
+    have : ((memRd l ((4 : Nat) : Int) 0).2 != Go.Error.nil) = true := by rw [he]; simp
+    simp only [this, if_true, he]
+    rfl
+
+/-- `readHeader` over the file bytes: the prefix table, the metadata and the total header size, or `none` = an error -/
+def hdrSpec (l : List UInt8) : Option (Array (Option Nat) × BK.MetaKVs × Nat) :=
+  if l.length < 4 then none else
+  if B.unle (l.take 4) > 785945 then none else
+  if l.length < 4 + B.unle (l.take 4) then none else
+  if ((l.drop 4).take (B.unle (l.take 4))).length < 8 then none else
+  if ((l.drop 4).take (B.unle (l.take 4))).take 8 ≠ magicL then none else
+  if (((l.drop 4).take (B.unle (l.take 4))).drop 8).length < 8 then none else
+  if B.unle ((((l.drop 4).take (B.unle (l.take 4))).drop 8).take 8) ≠ 2 then none else
+  match BK.parseMeta .v2 (((l.drop 4).take (B.unle (l.take 4))).drop 16) with
+  | none => none
+  | some (m, r2) =>
+    if r2.length < 8 then none else
+    match BK.parseTable (B.unle (r2.take 8)) (r2.drop 8) (Array.replicate 65536 none) with
+    | none => none
+    | some t => some (t, m, B.unle (l.take 4) + 4)
+
+theorem tableRep_init : TableRep (Array.replicate 65536 none) (List.replicate 65536 maxU) := by
+  refine ⟨List.length_replicate, ?_⟩
+  intro p hp
+  have h1 : (Array.replicate 65536 (none : Option Nat)).getD p none = none := by
+    rw [Array.getD_eq_getD_getElem?, Array.getElem?_replicate]
+    split <;> rfl
+  rw [h1]
+  show (List.replicate 65536 maxU).getD p 0 = 18446744073709551615
+  rw [List.getD_eq_getElem?_getD, List.getElem?_replicate, if_pos hp]
+  rfl
+
+theorem memRd_zero_fst (c : List UInt8) (k : Int) : (memRd c 0 k).1 = [] := by
+  unfold memRd
+  split
+  · rfl
+  · split
+    · rfl
+    · simp
+
+theorem wrap_ne_nil (tag : String) (e : Go.Error) : Go.Error.wrap tag e ≠ Go.Error.nil := by
+  cases e <;> (intro h; cases h)
+
+/-- **tie**: `readHeader(reader)`, as translated from the source, over an in-memory reader = `hdrSpec` -/
+theorem gen_bkReadHeader_eq_spec (l : List UInt8) (fuel : Nat) (hf : 800000 < fuel) (hl : l.length < 2 ^ 62) :
+    match hdrSpec l with
+    | some (t, m, hsz) => ∃ T, TableRep t T ∧ bkReadHeader fuel (memRd l) = .ok (T, ofKvs m, (hsz : Int), Go.Error.nil)
+    | none => ∃ e, e ≠ Go.Error.nil ∧ bkReadHeader fuel (memRd l) = .ok (hdrErr e) := by
+  rw [readHeader_unfold]
+  unfold readHeaderM hdrSpec
+  rw [readHeaderSize_eq]
+  have hnil : ¬ ((Go.Error.nil != Go.Error.nil) = true) := by simp
+  by_cases h4 : l.length < 4
+  · have hn4 : ¬ (4 ≤ l.length) := by omega
+    rw [if_pos h4, if_neg hn4, bind_ok]
+    have : ((Go.Error.eof != Go.Error.nil) = true) := by simp
+    rw [if_pos this]
+    exact ⟨_, (by intro h; cases h), rfl⟩
+  · have hp4 : 4 ≤ l.length := by omega
+    rw [if_neg h4, if_pos hp4, bind_ok, if_neg hnil]
+    have h32 := BkHas.unle4_lt l
+    generalize B.unle (l.take 4) = hs at h32 ⊢
+    by_cases hbig : hs > 785945
+    · have : decide (((hs : Nat) : Int) > 785945) = true := by rw [decide_eq_true_eq]; omega
+      rw [if_pos hbig, if_pos this]
+      exact ⟨_, (by intro h; cases h), rfl⟩
+    · have hnb : ¬ (decide (((hs : Nat) : Int) > 785945) = true) := by rw [decide_eq_true_eq]; omega
+      rw [if_neg hbig, if_neg hnb]
+      have hmk : Go.makeOf (0 : UInt8) ((hs : Nat) : Int) = .ok (List.replicate hs 0) := by
+        unfold Go.makeOf; rw [if_pos (by omega), Int.toNat_natCast]; rfl
+      rw [hmk, bind_ok]
+      have hlr : Go.len (List.replicate hs (0 : UInt8)) = (hs : Int) := by unfold Go.len; simp
+      simp only [hlr]
+      have hmg : Go.makeOf (0 : UInt8) (Go.len magicL) = .ok (List.replicate 8 0) := by
+        unfold Go.makeOf magicL Go.len; rfl
+      have hl8 : Go.len (List.replicate 8 (0 : UInt8)) = ((8 : Nat) : Int) := by unfold Go.len; simp
+      by_cases hz : hs = 0
+      · -- an empty header: the model fails at the magic; the code at the read or at the magic
+        subst hz
+        have hsp : ¬ (l.length < 4 + 0) := by omega
+        rw [if_neg hsp]
+        have h8 : ((l.drop 4).take 0).length < 8 := by simp
+        rw [if_pos h8]
+        by_cases he : ((memRd l ((0 : Nat) : Int) 4).2 != Go.Error.nil) = true
+        · rw [if_pos he]
+          exact ⟨_, wrap_ne_nil _ _, rfl⟩
+        · rw [if_neg he, hmg, bind_ok, hl8]
+          have hfst := memRd_zero_fst l 4
+          have hfst' : (memRd l ((0 : Nat) : Int) 4).1 = [] := hfst
+          simp only [hfst', List.length_nil, List.drop_zero, List.replicate_zero, List.append_nil]
+          obtain ⟨tt, ht⟩ := readFull_gen [] 0 8 (by simp)
+          rw [ht, catch_err, bind_ok]
+          have : ((Go.Error.other tt != Go.Error.nil) = true) := by simp
+          rw [if_pos this]
+          exact ⟨_, (by intro h; cases h), rfl⟩
+      · have hpos : 0 < hs := by omega
+        by_cases hshort : l.length < 4 + hs
+        · rw [if_pos hshort]
+          have he := memRd_at4_short l hs (by omega) hpos
+          have : ((memRd l (hs : Int) 4).2 != Go.Error.nil) = true := by rw [he]; simp
+          rw [if_pos this]
+          exact ⟨_, wrap_ne_nil _ _, rfl⟩
+        · rw [if_neg hshort, memRd_at4_ok l hs (by omega) hpos]
+          simp only
+          rw [if_neg hnil, hmg, bind_ok, hl8]
+          have hbl : ((l.drop 4).take hs).length = hs := by rw [List.length_take, List.length_drop]; omega
+          have hbuf : (l.drop 4).take hs ++ (List.replicate hs (0 : UInt8)).drop ((l.drop 4).take hs).length = (l.drop 4).take hs := by
+            rw [hbl]; simp
+          rw [hbuf]
+          generalize (l.drop 4).take hs = buf at hbl ⊢
+          -- magic
+          by_cases hm8 : buf.length < 8
+          · rw [if_pos hm8]
+            obtain ⟨tt, ht⟩ := readFull_gen buf 0 8 (by simpa using hm8)
+            rw [ht, catch_err, bind_ok]
+            have : ((Go.Error.other tt != Go.Error.nil) = true) := by simp
+            rw [if_pos this]
+            exact ⟨_, wrap_ne_nil _ _, rfl⟩
+          · rw [if_neg hm8, readFull_ok buf 0 8 (by simpa using hm8), catch_ok, bind_ok, if_neg hnil]
+            simp only [List.drop_zero, Nat.zero_add]
+            by_cases hmag : buf.take 8 ≠ magicL
+            · have : (!(buf.take 8 == magicL)) = true := by simpa using hmag
+              rw [if_pos hmag, if_pos this]
+              exact ⟨_, (by intro h; cases h), rfl⟩
+            · have hb : ¬ ((!(buf.take 8 == magicL)) = true) := by simpa using hmag
+              rw [if_neg hmag, if_neg hb]
+              -- version
+              by_cases hv8 : (buf.drop 8).length < 8
+              · rw [if_pos hv8]
+                obtain ⟨tt, ht⟩ := readU64_short buf 8 hv8
+                rw [ht, catch_err, bind_ok]
+                have : ((Go.Error.other tt != Go.Error.nil) = true) := by simp
+                rw [if_pos this]
+                exact ⟨_, wrap_ne_nil _ _, rfl⟩
+              · rw [if_neg hv8, readU64_eq, if_neg hv8, catch_ok, bind_ok, if_neg hnil]
+                have hv64 := BkHas.unle8_lt (buf.drop 8)
+                generalize B.unle ((buf.drop 8).take 8) = ver at hv64 ⊢
+                have hvn : (UInt64.ofNat ver != 2) = true ↔ ver ≠ 2 := by
+                  rw [bne_iff_ne, Ne, ← UInt64.toNat_inj, UInt64.toNat_ofNat', Nat.mod_eq_of_lt hv64]; rfl
+                by_cases hver : ver ≠ 2
+                · rw [if_pos hver, if_pos (hvn.mpr hver)]
+                  exact ⟨_, (by intro h; cases h), rfl⟩
+                · rw [if_neg hver, if_neg (fun h => hver (hvn.mp h))]
+                  -- metadata
+                  have hmeta := unmarshalDec_eq fuel (by omega) buf (8 + 8)
+                  have e16 : (8 : Nat) + 8 = 16 := rfl
+                  rw [e16] at hmeta
+                  cases hpm : BK.parseMeta .v2 (buf.drop 16) with
+                  | none =>
+                    rw [hpm] at hmeta
+                    obtain ⟨tt, ht⟩ := hmeta
+                    simp only
+                    rw [ht, catch_err, bind_ok]
+                    have : ((Go.Error.other tt != Go.Error.nil) = true) := by simp
+                    rw [if_pos this]
+                    exact ⟨_, wrap_ne_nil _ _, rfl⟩
+                  | some q =>
+                    obtain ⟨m, r2⟩ := q
+                    rw [hpm] at hmeta
+                    obtain ⟨p', hp', hmd⟩ := hmeta
+                    simp only
+                    rw [hmd, catch_ok, bind_ok, if_neg hnil]
+                    -- numPrefixes
+                    by_cases hn8 : r2.length < 8
+                    · rw [if_pos hn8]
+                      obtain ⟨tt, ht⟩ := readU64_short buf p' (by rw [hp']; exact hn8)
+                      rw [ht, catch_err, bind_ok]
+                      have : ((Go.Error.other tt != Go.Error.nil) = true) := by simp
+                      rw [if_pos this]
+                      exact ⟨_, wrap_ne_nil _ _, rfl⟩
+                    · rw [if_neg hn8, readU64_eq, if_neg (by rw [hp']; exact hn8), catch_ok, bind_ok, if_neg hnil, hp']
+                      rw [newLayout_eq fuel (by omega), bind_ok]
+                      have hnp64 := BkHas.unle8_lt r2
+                      generalize B.unle (r2.take 8) = np at hnp64 ⊢
+                      have hnpn : (UInt64.ofNat np).toNat = np := by
+                        rw [UInt64.toNat_ofNat']; exact Nat.mod_eq_of_lt hnp64
+                      have hdr : buf.drop (p' + 8) = r2.drop 8 := by rw [← hp', List.drop_drop]
+                      have hfu : (buf.length - (p' + 8)) / 10 + 1 < fuel := by
+                        have : (buf.length - (p' + 8)) / 10 ≤ buf.length := Nat.le_trans (Nat.div_le_self _ _) (Nat.sub_le _ _)
+                        omega
+                      have hloop := table_loop fuel (UInt64.ofNat np) buf np fuel 0 (p' + 8) (Array.replicate 65536 none)
+                        (List.replicate 65536 maxU) (by rw [hnpn]; omega) hfu tableRep_init (by simp)
+                      rw [hdr] at hloop
+                      have h0 : UInt64.ofNat 0 = (0 : UInt64) := rfl
+                      rw [h0] at hloop
+                      cases hpt : BK.parseTable np (r2.drop 8) (Array.replicate 65536 none) with
+                      | none =>
+                        rw [hpt] at hloop
+                        obtain ⟨e, hne, he⟩ := hloop
+                        simp only
+                        rw [he, bind_ok]
+                        exact ⟨e, hne, rfl⟩
+                      | some t =>
+                        rw [hpt] at hloop
+                        obtain ⟨p2, T, hT, he⟩ := hloop
+                        simp only
+                        rw [he, bind_ok]
+                        refine ⟨T, hT, ?_⟩
+                        have hw : Go.wrap64 (((hs : Nat) : Int) + 4) = ((hs + 4 : Nat) : Int) := by
+                          rw [Go.wrap64_id] <;> omega
+                        simp only [hw]
+                        rfl
+
+/-! ### `isReaderEmpty`, `NewReader` -/
+
+theorem isReaderEmpty_eq (l : List UInt8) :
+    bkIsReaderEmpty (memRd l) = .ok (decide (l = []), Go.Error.nil) := by
+  have hm : bkIsReaderEmpty (memRd l) =
+      (if false = true then pure (false, Go.Error.other "reader is nil") else
+       Go.makeOf (0 : UInt8) 1 >>= fun t1 =>
+       let t2 := memRd l (Go.len t1) 0
+       if (t2.2 != Go.Error.nil) = true then
+         (if (Go.Error.is t2.2 Go.Error.eof || Go.Error.is t2.2 Go.Error.unexpectedEOF) = true then pure (true, Go.Error.nil)
+          else pure (false, t2.2))
+       else pure ((Go.len (t2.1 ++ t1.drop t2.1.length) == 0), Go.Error.nil)) := rfl
+  rw [hm]
+  have hmk : Go.makeOf (0 : UInt8) (1 : Int) = .ok (List.replicate 1 0) := by
+    unfold Go.makeOf; rw [if_pos (by omega)]; rfl
+  simp only [Bool.false_eq_true, if_false]
+  rw [hmk, bind_ok]
+  have hl1 : Go.len (List.replicate 1 (0 : UInt8)) = ((1 : Nat) : Int) := by unfold Go.len; simp
+  simp only [hl1]
+  cases l with
+  | nil =>
+    have he := memRd_at0_short [] 1 (by simp) (by omega)
+    have : ((memRd [] ((1 : Nat) : Int) 0).2 != Go.Error.nil) = true := by rw [he]; simp
+    rw [if_pos this, he]
+    rfl
+  | cons c r =>
+    rw [memRd_at0_ok (c :: r) 1 (by simp) (by omega)]
+    rfl
+
+def newReaderM (fuel : Nat) (reader : Go.ReaderAt) : M (Bucketteer_Reader × Go.Error) :=
+  bkIsReaderEmpty reader >>= fun t1 =>
+  if (t1.2 != Go.Error.nil) = true then
+    pure (Bucketteer_Reader.zero, Go.Error.wrap "failed to check if reader is empty: %w" t1.2) else
+  if t1.1 = true then pure (Bucketteer_Reader.zero, Go.Error.other "reader is empty") else
+  bkNewLayoutPtr fuel >>= fun _ =>
+  bkReadHeader fuel reader >>= fun t3 =>
+  if (t3.2.2.2 != Go.Error.nil) = true then
+    pure (Bucketteer_Reader.zero, Go.Error.wrap "failed to read header: %w" t3.2.2.2) else
+  pure ({ contentReader := Go.sectionReader reader t3.2.2.1 9223372036854775807, meta_ := t3.2.1, prefixToOffset := t3.1 },
+    Go.Error.nil)
+
+theorem newReader_unfold (fuel : Nat) (reader : Go.ReaderAt) : bkNewReader fuel reader = newReaderM fuel reader := rfl
+
+/-- **tie**: `NewReader(reader)`, as translated from the source, over an in-memory reader: for every byte string below
+    2^62 bytes it returns the Reader over the table, the metadata and the content section `readHeader` found
+    (`hdrSpec`), or a non-nil error — never a panic -/
+theorem gen_bkNewReader_eq_spec (l : List UInt8) (fuel : Nat) (hf : 800000 < fuel) (hl : l.length < 2 ^ 62) :
+    match (if l = [] then none else hdrSpec l) with
+    | some (t, m, hsz) => ∃ T, TableRep t T ∧ bkNewReader fuel (memRd l) =
+        .ok ({ contentReader := Go.sectionReader (memRd l) (hsz : Int) 9223372036854775807, meta_ := ofKvs m, prefixToOffset := T },
+          Go.Error.nil)
+    | none => ∃ e, e ≠ Go.Error.nil ∧ bkNewReader fuel (memRd l) = .ok (Bucketteer_Reader.zero, e) := by
+  rw [newReader_unfold]
+  unfold newReaderM
+  rw [isReaderEmpty_eq, bind_ok]
+  have hnil : ¬ ((Go.Error.nil != Go.Error.nil) = true) := by simp
+  rw [if_neg hnil]
+  by_cases he : l = []
+  · have : decide (l = []) = true := by simpa using he
+    rw [if_pos he, if_pos this]
+    exact ⟨_, (by intro h; cases h), rfl⟩
+  · have : ¬ (decide (l = []) = true) := by simpa using he
+    rw [if_neg he, if_neg this, newLayoutPtr_eq fuel (by omega), bind_ok]
+    have hh := gen_bkReadHeader_eq_spec l fuel hf hl
+    cases hsp : hdrSpec l with
+    | none =>
+      rw [hsp] at hh
+      obtain ⟨e, hne, hee⟩ := hh
+      rw [hee, bind_ok]
+      have : ((hdrErr e).2.2.2 != Go.Error.nil) = true := by
+        show (e != Go.Error.nil) = true
+        simpa using hne
+      rw [if_pos this]
+      exact ⟨_, wrap_ne_nil _ _, rfl⟩
+    | some q =>
+      obtain ⟨t, m, hsz⟩ := q
+      rw [hsp] at hh
+      obtain ⟨T, hT, hee⟩ := hh
+      rw [hee, bind_ok]
+      simp only
+      rw [if_neg hnil]
+      exact ⟨T, hT, rfl⟩
+
 end GoTies.BkOpen
